@@ -139,6 +139,17 @@ theorem nextEvent_eq_end (gt endT : Int) (fs : List (Pid × Front))
 @[simp] theorem runSteps_emitTime (sb : StepBeh) (s : St) : (runSteps sb s).emitTime = s.emitTime := rfl
 @[simp] theorem runSteps_layers (sb : StepBeh) (s : St) : (runSteps sb s).layers = s.layers := rfl
 
+@[simp] theorem applyBatch_gt (s : St) (os : List (Pid × Outcome)) (gt' : Int) :
+    (applyBatch s os gt').gt = gt' := rfl
+@[simp] theorem applyBatch_fronts (s : St) (os : List (Pid × Outcome)) (gt' : Int) :
+    (applyBatch s os gt').fronts =
+      (os.map (fun po => (po.1, settle gt' po.2))).map (fun pf => (pf.1, clearDue gt' pf.2)) := rfl
+theorem applyBatch_log (s : St) (os : List (Pid × Outcome)) (gt' : Int) :
+    (applyBatch s os gt').log =
+      s.log ++ (os.map (fun po => po.2.evs)).flatten ++ (os.map (settleEv gt')).flatten ++
+        ((os.map (fun po => (po.1, settle gt' po.2))).filterMap (dueUpd gt')).map
+          (fun pdu => Ev.apply pdu.1 gt' pdu.2.1 pdu.2.2) := rfl
+
 @[simp] theorem emitAfter_gt (e : Bool) (n : Nat) (fl : List String) (s : St) : (emitAfter e n fl s).gt = s.gt := by
   unfold emitAfter; split
   · rfl
